@@ -642,6 +642,11 @@ impl Client {
             // through the response loop.
             let _ = writer.get_ref().shutdown(Shutdown::Both);
         }
+        #[cfg(feature = "verif-hooks")]
+        if result.is_ok() {
+            drop(writer);
+            crate::verif::probe("client.written");
+        }
         result
     }
 
